@@ -56,6 +56,10 @@ pub struct LifeDesc {
     /// exactly k instructions of code under test
     #[serde(default)]
     pub fine: Option<(usize, usize, u64)>,
+    /// with `fine`: preempt right after the j-th atomic instruction of the operation instead of
+    /// after k instructions
+    #[serde(default)]
+    pub fine_atomic: Option<u64>,
     /// allocator knob override (freed JIT blocks handed out again, role-preserving order);
     /// absent = drawn from the run seed
     #[serde(default)]
@@ -1210,6 +1214,7 @@ pub fn generate_owner_race(run_seed: u64) -> LifeDesc {
         threads,
         teardown_seed: rng::derive(run_seed, &[rng::label("teardown")]),
         fine,
+        fine_atomic: if rng::derive(run_seed, &[rng::label("fine-atomic")]) % 2 == 0 { Some(1 + rng::derive(run_seed, &[rng::label("fine-atomic-j")]) % 8) } else { None },
         page_reuse: None,
         schedule: None,
     }
@@ -1258,6 +1263,7 @@ pub fn generate_reload_loop(run_seed: u64) -> LifeDesc {
         threads,
         teardown_seed: rng::derive(run_seed, &[rng::label("teardown")]),
         fine: None,
+        fine_atomic: None,
         page_reuse: Some((true, r.chance(2, 3))),
         schedule: None,
     }
@@ -1397,6 +1403,7 @@ pub fn generate(run_seed: u64, thorough: bool) -> LifeDesc {
         threads,
         teardown_seed: rng::derive(run_seed, &[rng::label("teardown")]),
         fine,
+        fine_atomic: if rng::derive(run_seed, &[rng::label("fine-atomic")]) % 3 == 0 { Some(1 + rng::derive(run_seed, &[rng::label("fine-atomic-j")]) % 12) } else { None },
         page_reuse: None,
         schedule: None,
     }
@@ -1460,6 +1467,7 @@ pub fn execute(d: &LifeDesc, keep_trace: bool) -> RunResult {
     }
     if !viol::any() && !single {
         let fine = d.fine;
+        let fine_atomic = d.fine_atomic;
         let bodies: Vec<sched::Body> = d
             .threads
             .iter()
@@ -1469,7 +1477,10 @@ pub fn execute(d: &LifeDesc, keep_trace: bool) -> RunResult {
                 Box::new(move || {
                     for (i, op) in ops.iter().enumerate() {
                         match fine {
-                            Some((ft, fi, k)) if ft == t && fi == i => sched::fine_window(k, || exec(op)),
+                            Some((ft, fi, k)) if ft == t && fi == i => match fine_atomic {
+                                Some(j) => sched::fine_window_atomic(j, || exec(op)),
+                                None => sched::fine_window(k, || exec(op)),
+                            },
                             _ => exec(op),
                         }
                         if viol::any() {
